@@ -354,7 +354,9 @@ def replay(hosts: dict, beh: dict, check: set[str]) -> tuple[list, int]:
                 base_v = dn.value(cname, s)
                 import decimal as _d
                 if isinstance(base_v, _d.Decimal):
-                    value = _d.Decimal(0)
+                    # zero, and numbers with more digits than the decimal context keeps in arithmetic (28)
+                    value = [_d.Decimal(0), _d.Decimal('1.2345678901234567890123456789012'),
+                             _d.Decimal('-98765432109876543210.123456789012')][(ev['slot'] + sum(map(ord, cname))) % 3]
                 elif isinstance(base_v, str) and any(t in (models.EscapedString, models.InlineComment, models.BlockComment) for t in s['types']):
                     value = ''
                 else:
